@@ -50,7 +50,7 @@ pub fn run_case(c: &Sexp) -> Option<R<Sexp>> {
     let op = l.first()?.atom().ok()?;
     let mine = matches!((op, l.len()),
         ("parse-subgoal", 2) | ("parse-complex", 2) | ("tokenize", 2) | ("token-tree", 2) |
-        ("generate-goal", 3) | ("parse-rule", 3) | ("show-goal", 2) | ("show-rule", 2) |
+        ("generate-goal", 3) | ("parse-rule", 3) | ("show-goal", 2) | ("show-rule", 2) | ("show-term", 2) |
         ("show-infix", 2));
     if !mine { return None; }
     let arg_str = |i: usize| -> R<String> { str_of_atom(l[i].atom()?) };
@@ -64,6 +64,7 @@ pub fn run_case(c: &Sexp) -> Option<R<Sexp>> {
             "generate-goal" => Ok(res(generate_goal(&arg_str(1)?), sexp_of_goal)),
             "parse-rule" => Ok(res(parse_rule(&arg_str(1)?), sexp_of_rule)),
             "show-goal" => Ok(ok(A(atom_of_str(&goal_of(&l[1])?.to_string())))),
+            "show-term" => Ok(ok(A(atom_of_str(&term_of(&l[1])?.to_string())))),
             "show-rule" => Ok(ok(A(atom_of_str(&rule_of(&l[1])?.to_string())))),
             "show-infix" => {
                 let i = match l[1].atom()? {
